@@ -16,6 +16,7 @@ RULE = ("histories of solves on ONE description: steps are (pruned|unpruned) x (
         "for that sub-space), random length-4..8 histories on the rest; games from G-DEAD/G-ACY/G-CYC/G-LEX/G-TIE and the paper's figure "
         "5.5 game.  Non-trivial: pruning actually removes a transition in that game (only those can expose aliasing); "
         "distinct = (game hash, history).")
+RULE += (' Rewards as Fraction/Decimal, final states as set/tuple, XPROC (three interpreter processes with different hash seeds). THREADS class: the real code called from 3-4 threads of one interpreter (1 us switch interval, yield injection at every ~1000-3000th executed line), each concurrent outcome compared with the sequential outcome of the same process.')
 FLOOR = 300
 REQUIRED = ["alias.solves"]
 ASSUMPTIONS = ["results compared with == on the full 8-tuple (the code is deterministic)"]
